@@ -238,7 +238,7 @@ def oracle(case, obs):
     # plain / progress: each processed step exactly once with its final status
     processed = [(e[1], e[2]) for e in obs["fmt"] if e[0] == "result"]
     if "plain" in obs["text"]:
-        shown = re.findall(r"^\s+(?:Given|And|When|Then|But) (\w+ \d+) \.\.\. (\w+)", obs["text"]["plain"], re.M)
+        shown = re.findall(r"^\s+(?:Given|And|When|Then|But) (\w+(?: x)? \d+) \.\.\. (\w+)", obs["text"]["plain"], re.M)
         if shown != processed:
             out.append(("plain report shows %s, processed steps are %s" % (shown[:6], processed[:6]), "plain-steps"))
     for name in ("progress2", "progress3"):
@@ -301,7 +301,7 @@ def enc(case, obs):
             st = el.get("status")
             els.append("(mkJElem %s %s %s)" % (kind, steps, "(Some %s)" % st if st else "(@None status)"))
         docs.append(clist(els, "jelem"))
-    shown = re.findall(r"^\s+(?:Given|And|When|Then|But) (\w+ \d+) \.\.\. (\w+)", obs["text"]["plain"], re.M)
+    shown = re.findall(r"^\s+(?:Given|And|When|Then|But) (\w+(?: x)? \d+) \.\.\. (\w+)", obs["text"]["plain"], re.M)
     plain = clist(["(%s, %s)" % (cnat(rc.step_id_of(n)), s) for n, s in shown], "nat * status")
     return rc.c_program(case["prog"]), "(Some %s, Some %s)" % (clist(docs, "list jelem"), plain)
 
@@ -461,6 +461,15 @@ def suites(tier, seed):
         p = rc.gen_program(rnd)
         if i % 3 == 0:
             p = rc.with_random_faults(rnd, p, p_fault=0.6)
+        if i % 4 == 1:
+            # the same step (same keyword type and text) written more than once in a scenario or its background
+            for f in p["features"]:
+                for it in f["items"]:
+                    for x in (it["items"] if it["kind"] == "rule" else [it]):
+                        if x["steps"] and rnd.random() < 0.6:
+                            k = rnd.randrange(len(x["steps"]))
+                            src = rnd.choice(x["steps"] + (f["bg"] or []))
+                            x["steps"].insert(k + 1, dict(src))
         order = list(fmts)
         rnd.shuffle(order)
         if rnd.random() < 0.3:
